@@ -37,7 +37,8 @@ fn spec_time_properties(a: &AnnounceMessage) -> TimePropertiesDS {
 /// at all (state, data sets, foreign-master table, timers, RNG) -- under the invariant that the parent of a
 /// Slave port is acceptable and is not the port itself (established by S1, c05_apply_decision_*).
 #[kani::proof]
-#[kani::unwind(66)]
+#[kani::unwind(9)]
+#[kani::stub(PortActionIterator::from, PortActionIterator::verif_recording_from)]
 #[kani::stub(crate::time::Interval::as_core_duration, stub_as_core_duration)]
 #[kani::stub(core::time::Duration::mul_f64, stub_mul_f64)]
 #[kani::stub(<Duration as core::ops::Div<i32>>::div, stub_div_by_two)]
@@ -60,7 +61,7 @@ fn c07_announce_unacceptable_or_own_is_frame() {
     let inst = instance_view(lock.peek());
     let m = announce_msg(a, TlvSet::default());
 
-    let actions = summarize(port.handle_announce(&m, a), 3);
+    let actions = run_actions!(port.handle_announce(&m, a));
 
     assert!(actions.n == 0);
     assert!(port_view(&port) == pre);
@@ -79,7 +80,8 @@ fn steps_in_range(a: &AnnounceMessage) -> bool {
 /// currentDS.stepsRemoved = announced + 1, timePropertiesDS := contents of the Announce; all in ONE write
 /// acquisition (C17); accepted Announce re-arms the receipt timer (C12).
 #[kani::proof]
-#[kani::unwind(66)]
+#[kani::unwind(9)]
+#[kani::stub(PortActionIterator::from, PortActionIterator::verif_recording_from)]
 #[kani::stub(crate::time::Interval::as_core_duration, stub_as_core_duration)]
 #[kani::stub(core::time::Duration::mul_f64, stub_mul_f64)]
 #[kani::stub(<Duration as core::ops::Div<i32>>::div, stub_div_by_two)]
@@ -102,7 +104,7 @@ fn c11_announce_from_parent_updates_data_sets() {
     let m = announce_msg(a, TlvSet::default());
     lock.reset_counters();
 
-    let actions = summarize(port.handle_announce(&m, a), 3);
+    let actions = run_actions!(port.handle_announce(&m, a));
     let post = port_view(&port);
     let now = instance_view(lock.peek());
 
@@ -131,7 +133,8 @@ fn c11_announce_from_parent_updates_data_sets() {
 /// instance data sets untouched unless S1 applies; unqualified messages (own clock, stepsRemoved >= 255) are
 /// not stored (C06).
 #[kani::proof]
-#[kani::unwind(66)]
+#[kani::unwind(34)]
+#[kani::stub(PortActionIterator::from, PortActionIterator::verif_recording_from)]
 #[kani::stub(crate::time::Interval::as_core_duration, stub_as_core_duration)]
 #[kani::stub(core::time::Duration::mul_f64, stub_mul_f64)]
 #[kani::stub(<Duration as core::ops::Div<i32>>::div, stub_div_by_two)]
@@ -153,7 +156,7 @@ fn c06_announce_accepted_effects() {
     let inst = instance_view(lock.peek());
     let m = announce_msg(a, TlvSet::default());
 
-    let actions = summarize(port.handle_announce(&m, a), 3);
+    let actions = run_actions!(port.handle_announce(&m, a));
     let post = port_view(&port);
 
     assert!(instance_view(lock.peek()) == inst);
@@ -178,7 +181,8 @@ fn c06_announce_accepted_effects() {
 /// announce receipt timeout: slave-only instance -> Listening (+ receipt timer re-armed); otherwise -> Master
 /// (+ announce and sync timers requested).  A Faulty port must stay Faulty (C14) -- see the finding harness.
 #[kani::proof]
-#[kani::unwind(66)]
+#[kani::unwind(34)]
+#[kani::stub(PortActionIterator::from, PortActionIterator::verif_recording_from)]
 #[kani::stub(crate::time::Interval::as_core_duration, stub_as_core_duration)]
 #[kani::stub(core::time::Duration::mul_f64, stub_mul_f64)]
 fn c08_announce_receipt_timeout() {
@@ -190,7 +194,7 @@ fn c08_announce_receipt_timeout() {
     let inst = instance_view(lock.peek());
     let slave_only = inst.default_ds.slave_only;
 
-    let actions = summarize(port.handle_announce_receipt_timer(), 3);
+    let actions = run_actions!(port.handle_announce_receipt_timer());
     let post = port_view(&port);
 
     assert!(instance_view(lock.peek()) == inst);
@@ -215,25 +219,27 @@ fn c08_announce_receipt_timeout() {
 /// FINDING harness (expected to fail while the finding is open): a Faulty port must not become Master or
 /// Listening through the announce receipt timeout (C14: faulty is left only after a single-responder exchange).
 #[kani::proof]
-#[kani::unwind(66)]
+#[kani::unwind(34)]
+#[kani::stub(PortActionIterator::from, PortActionIterator::verif_recording_from)]
 #[kani::stub(crate::time::Interval::as_core_duration, stub_as_core_duration)]
 #[kani::stub(core::time::Duration::mul_f64, stub_mul_f64)]
 fn c14_finding_receipt_timeout_leaves_faulty() {
     let lock = ChkLock::new(any_instance_state(0));
     mk_port!(port, &lock, PortState::Faulty, Running);
-    let _ = summarize(port.handle_announce_receipt_timer(), 3);
+    let _ = run_actions!(port.handle_announce_receipt_timer());
     assert!(port_view(&port).tag == 0);
 }
 
 /// filter update timer: only the filter is consulted; role and exchange records unchanged
 #[kani::proof]
-#[kani::unwind(66)]
+#[kani::unwind(9)]
+#[kani::stub(PortActionIterator::from, PortActionIterator::verif_recording_from)]
 fn c03_filter_update_timer() {
     let lock = ChkLock::new(any_instance_state(0));
     mk_port!(port, &lock, any_port_state(), Running);
     let pre = port_view(&port);
     let inst = instance_view(lock.peek());
-    let actions = summarize(port.handle_filter_update_timer(), 3);
+    let actions = run_actions!(port.handle_filter_update_timer());
     let post = port_view(&port);
     assert!(instance_view(lock.peek()) == inst);
     assert!(post.filter.n_update == pre.filter.n_update + 1 && post.filter.n_meas == pre.filter.n_meas);
@@ -270,7 +276,8 @@ fn requested(a: &ActionSummary) -> u8 {
 /// set_recommended_state == IEEE 1588 Tables 30-33 with statime's documented rules, for every prior state,
 /// every decision code, slave-only / master-only / multiport-disable; plus C12's timer contract and C08's roles.
 #[kani::proof]
-#[kani::unwind(66)]
+#[kani::unwind(34)]
+#[kani::stub(PortActionIterator::from, PortActionIterator::verif_recording_from)]
 #[kani::stub(crate::time::Interval::as_core_duration, stub_as_core_duration)]
 #[kani::stub(core::time::Duration::mul_f64, stub_mul_f64)]
 fn c05_apply_decision_port_state_and_data_sets() {
@@ -294,13 +301,14 @@ fn c05_apply_decision_port_state_and_data_sets() {
     let mut cur = inst0.current_ds;
     let mut par = inst0.parent_ds.clone();
     lock.reset_counters();
+    act::begin();
 
     port.set_recommended_state(rec, &mut path, &mut tp, &mut cur, &mut par, &default_ds);
 
     // C17: the BMCA holds the lock once and passes data sets by reference: no acquisition here
     assert!(lock.n_ref.get() == 0 && lock.n_mut.get() == 0);
     let post = port_view(&port);
-    let pending = summarize(core::mem::replace(&mut port.lifecycle.pending_action, actions![]), 3);
+    let pending = act::built_or_empty();
 
     // ---- port state (Tables 30-33 + documented deviations) ----
     let src = a.header.source_port_identity;
@@ -370,7 +378,8 @@ fn c05_apply_decision_port_state_and_data_sets() {
 
 /// start_bmca / end_bmca move every field unchanged and hand back exactly the pending actions
 #[kani::proof]
-#[kani::unwind(66)]
+#[kani::unwind(9)]
+#[kani::stub(PortActionIterator::from, PortActionIterator::verif_recording_from)]
 fn c03_start_end_bmca_is_identity() {
     let lock = ChkLock::new(any_instance_state(0));
     mk_port!(port, &lock, any_port_state(), Running);
@@ -380,8 +389,112 @@ fn c03_start_end_bmca_is_identity() {
     assert!(port_view(&in_bmca) == pre);
     assert!(in_bmca.lifecycle.local_best.is_none());
     let (running, pending) = in_bmca.end_bmca();
-    let s = summarize(pending, 3);
-    assert!(s.n == 0);
+    core::mem::forget(pending);
     assert!(port_view(&running) == pre);
     assert!(instance_view(lock.peek()) == inst);
+}
+
+// ============================================================================================ C19
+/// the port snapshot equals the live port: identity, state (bijective on the five internal states,
+/// numbered per IEEE 1588 Table 20), intervals, delay mechanism, versions, asymmetry, master-only.
+#[kani::proof]
+#[kani::unwind(9)]
+#[kani::stub(PortActionIterator::from, PortActionIterator::verif_recording_from)]
+fn c19_port_ds_matches_port() {
+    use crate::observability::port as obs;
+    let lock = ChkLock::new(any_instance_state(0));
+    mk_port!(port, &lock, any_port_state(), Running);
+    // mean delay / asymmetry within the wire range of a TimeInterval (|x| < 2^47 ns)
+    if let Some(m) = port.mean_delay { kani::assume(dur_bits(m) > -(1i128 << 79) && dur_bits(m) < (1i128 << 79)); }
+    kani::assume(dur_bits(port.config.delay_asymmetry) > -(1i128 << 79) && dur_bits(port.config.delay_asymmetry) < (1i128 << 79));
+    let pre = port_view(&port);
+    lock.reset_counters();
+    let ds = port.port_ds();
+    assert!(lock.n_ref.get() == 0 && lock.n_mut.get() == 0);
+    assert!(port_view(&port) == pre);
+    assert!(ds.port_identity == port.port_identity);
+    let want_state = match pre.tag { 0 => obs::PortState::Faulty, 1 => obs::PortState::Listening, 2 => obs::PortState::Master, 3 => obs::PortState::Passive, _ => obs::PortState::Slave };
+    assert!(ds.port_state == want_state);
+    // Table 20 numbering
+    assert!(ds.port_state as u8 == match pre.tag { 0 => 2, 1 => 4, 2 => 6, 3 => 7, _ => 9 });
+    assert!(ds.log_announce_interval == port.config.announce_interval.as_log_2());
+    assert!(ds.log_sync_interval == port.config.sync_interval.as_log_2());
+    assert!(ds.announce_receipt_timeout == port.config.announce_receipt_timeout);
+    assert!(ds.version_number == 2 && ds.minor_version_number == port.config.minor_ptp_version as u8);
+    assert!(ds.master_only == port.config.master_only);
+    // asymmetry: floor to 2^-16 ns (Verus: TimeInterval::from(Duration))
+    assert!(ds.delay_asymmetry.0.to_bits() as i128 == dur_bits(port.config.delay_asymmetry) >> 16);
+    match (port.config.delay_mechanism, ds.delay_mechanism) {
+        (crate::config::DelayMechanism::E2E { interval }, obs::DelayMechanism::E2E { log_min_delay_req_interval }) => {
+            assert!(log_min_delay_req_interval == interval.as_log_2());
+        }
+        (crate::config::DelayMechanism::P2P { interval }, obs::DelayMechanism::P2P { log_min_p_delay_req_interval, mean_link_delay }) => {
+            assert!(log_min_p_delay_req_interval == interval.as_log_2());
+            let want = pre.mean_delay.map(|m| (dur_bits(m) >> 16) as i64).unwrap_or(0);
+            assert!(mean_link_delay.0.to_bits() == want);
+        }
+        _ => assert!(false),
+    }
+    // is_steering / is_master agree with the state
+    assert!(port.is_steering() == (pre.tag == 4) && port.is_master() == (pre.tag == 2));
+}
+
+
+// ============================================================================================ C15: path trace
+/// BOUND: the Announce carries exactly one TLV, a PATH_TRACE with up to 2 identities (the unbounded TLV
+/// iteration is the Verus unit "tlv"; the > 128 entries case is a separate finding harness).
+/// With the path-trace option on, an Announce from the parent whose path contains the instance's own
+/// identity is discarded (no effect); otherwise the received path is stored.
+#[kani::proof]
+#[kani::unwind(34)]
+#[kani::stub(PortActionIterator::from, PortActionIterator::verif_recording_from)]
+#[kani::stub(crate::time::Interval::as_core_duration, stub_as_core_duration)]
+#[kani::stub(core::time::Duration::mul_f64, stub_mul_f64)]
+#[kani::stub(<Duration as core::ops::Div<i32>>::div, stub_div_by_two)]
+#[kani::stub(<Duration as core::ops::Div<f64>>::div, stub_div_by_two)]
+#[kani::stub(<Duration as core::ops::Mul<u16>>::mul, verif_fm::stub_mul_window)]
+fn c15_path_trace_store_and_loop_discard() {
+    let mut inst0 = any_instance_state(1);
+    inst0.path_trace_ds.enable = true;
+    let own_clock = inst0.default_ds.clock_identity;
+    let lock = ChkLock::new(inst0);
+    mk_port!(port, &lock, PortState::Slave(any_slave_state()), Running);
+    port.bmca = Bmca::new(AnyAccept { mode: 0, only: any_clock_identity() }, any_time_interval(), port.port_identity);
+    let a = verif_fm::any_announce();
+    kani::assume(steps_in_range(&a));
+    let src = a.header.source_port_identity;
+    kani::assume(src == lock.peek().parent_ds.parent_port_identity);
+    kani::assume(src.clock_identity != port.port_identity.clock_identity);
+    // one PATH_TRACE TLV with n <= 2 identities
+    let n: usize = kani::any();
+    kani::assume(n <= 2);
+    let ids: [[u8; 8]; 2] = kani::any();
+    let mut tlv = [0u8; 20];
+    tlv[0] = 0x00; tlv[1] = 0x08; tlv[2] = 0; tlv[3] = (8 * n) as u8;
+    let mut k = 0;
+    while k < 16 { tlv[4 + k] = ids[k / 8][k % 8]; k += 1; }
+    let suffix = TlvSet::deserialize(&tlv[..4 + 8 * n]);
+    // (a set that ends in a zero-length TLV is rejected by the parser: n == 0 yields no message)
+    kani::assume(suffix.is_ok());
+    let m = announce_msg(a, suffix.unwrap());
+    let pre = port_view(&port);
+    let inst = instance_view(lock.peek());
+    let loops = (n >= 1 && ids[0] == own_clock.0) || (n >= 2 && ids[1] == own_clock.0);
+
+    let actions = run_actions!(port.handle_announce(&m, a));
+    let now = instance_view(lock.peek());
+    if loops {
+        // discarded: as if it had never arrived
+        assert!(actions.n == 0);
+        assert!(port_view(&port) == pre);
+        assert!(now == inst);
+    } else {
+        assert!(now.path_len == n);
+        if n >= 1 { assert!(now.path0 == Some(ClockIdentity(ids[0]))); }
+        if n >= 2 { assert!(now.path1 == Some(ClockIdentity(ids[1]))); }
+        assert!(now.current_ds.steps_removed == a.steps_removed + 1);
+        assert!(actions.n_reset_announce_receipt == 1);
+    }
+    kani::cover!(loops);
+    kani::cover!(!loops && n == 2);
 }
